@@ -24,7 +24,21 @@ def load():
         PROVIDERS.append(("pubsub", lambda seed, tier, i: c05.gen_case(seed, tier, i)[1]))
     except Exception:
         pass
-    for mod, label in [("c04req", "req"), ("c04rep", "rep"), ("c07", "survey"), ("c08", "pair"), ("c09", "bus")]:
+    def _filtered(modname, label):
+        # generators that use symbolic ids (`@...`, resolved interactively by their own runner) are used
+        # with those lines dropped: the generic judges need no particular reply contents
+        try:
+            mod = importlib.import_module(f"vlib.props.{modname}")
+            def fn(seed, tier, i, _m=mod):
+                ops = _m.gen_case(seed, tier, i)
+                ops = ops[1] if isinstance(ops, tuple) else ops
+                return [o for o in ops if "@" not in o and not o.startswith("pipe_id")]
+            PROVIDERS.append((label, fn))
+        except Exception:
+            pass
+    _filtered("c09", "bus")
+    _filtered("c04req", "req")
+    for mod, label in [("c04rep", "rep"), ("c07", "survey"), ("c08", "pair")]:
         _try(mod, "history", label)
     return PROVIDERS
 
